@@ -44,6 +44,16 @@ struct ConfigJson {
 }
 
 #[derive(Deserialize)]
+struct GeneratedFile {
+    #[serde(default)]
+    head: String,
+    repeat: String,
+    count: usize,
+    #[serde(default)]
+    tail: String,
+}
+
+#[derive(Deserialize)]
 struct Witness {
     #[serde(default)]
     config: ConfigJson,
@@ -68,6 +78,9 @@ struct Witness {
     /// the original (pre-transpilation) map, as JSON text, for the composition check (also reference it from `source`)
     #[serde(default)]
     original_map: Option<String>,
+    /// large files described instead of spelled out: path -> {"head": .., "repeat": .., "count": n, "tail": ..}; expanded into `files`
+    #[serde(default)]
+    generated_files: std::collections::HashMap<String, GeneratedFile>,
     /// the bad behaviour: REPRODUCED iff all conditions hold
     violated_when: Vec<serde_json::Value>,
 }
@@ -288,6 +301,9 @@ fn main() {
     let generic_prop: Option<String> = args.iter().position(|a| a == "--generic").map(|i| args[i + 1].clone());
     let variant: String = args.iter().position(|a| a == "--variant").map(|i| args[i + 1].clone()).unwrap_or_else(|| "default".to_string());
     let mut w = w;
+    for (path, g) in &w.generated_files {
+        w.files.insert(path.clone(), format!("{}{}{}", g.head, g.repeat.repeat(g.count), g.tail));
+    }
     if generic_prop.is_some() {
         let mk = |src: &str, dst: Option<&str>, op: bool, bare: bool| CsiJson { src: src.to_string(), dst: dst.map(|x| x.to_string()), operator: Some(op), allowed_without_callee: Some(bare) };
         let methods_only = || vec![mk("substring", Some("stringSubstring"), false, false), mk("trim", Some("stringTrim"), false, false), mk("concat", Some("stringConcat"), false, false), mk("slice", None, false, false), mk("replace", None, false, false)];
@@ -643,6 +659,13 @@ fn main() {
                     println!("--- hook used without a pass-through in the prologue: {:?}", bad);
                     bad.is_some() == v.as_bool().unwrap()
                 }
+                // every configured replacement name has a pass-through in the file prologue, whether this file uses it or not (the
+                // first rewritten file that is loaded creates the hook object for all the others)
+                "configured_hook_missing_in_prologue" => {
+                    let bad = methods.iter().map(|m| m.dst.clone()).find(|name| ![format!("{name}:"), format!("{name} :"), format!("'{name}'"), format!("\"{name}\"")].iter().any(|p| code.contains(p.as_str())));
+                    println!("--- configured hook without a pass-through in the prologue: {:?}", bad);
+                    bad.is_some() == v.as_bool().unwrap()
+                }
                 "unconfigured_hook_referenced" => {
                     let allowed: Vec<String> = methods.iter().map(|m| m.dst.clone()).collect();
                     let bad = hook_names(&code).into_iter().find(|n| !allowed.contains(n));
@@ -798,10 +821,12 @@ fn main() {
             "C15" => vec![("hooks_ne_metric", j(&format!("[{ok_run},{{\"hooks_ne_metric\":true}}]"))), ("debug_sum_ne_metric", j(&format!("[{ok_run},{{\"debug_sum_ne_metric\":true}}]")))],
             "C12" => vec![("modified_without_hook", j(&format!("[{ok_run},{{\"status_is\":\"modified\"}},{{\"hooks_eq\":0}}]"))), ("modified_without_valid_map", j(&format!("[{ok_run},{{\"status_is\":\"modified\"}},{{\"map_invalid\":true}}]"))),
                           ("hook_without_modified", j(&format!("[{ok_run},{{\"status_is\":\"notmodified\"}},{{\"hooks_ne\":0}}]"))),
+                          ("result_without_status", j(&format!("[{ok_run},{{\"status_is\":\"\"}}]"))),
                           ("not_modified_carries_code", j(&format!("[{ok_run},{{\"status_is\":\"notmodified\"}},{{\"code_is_empty\":false}}]"))),
                           ("modified_without_prologue_definitions", j(&format!("[{ok_run},{{\"status_is\":\"modified\"}},{{\"prologue_expected\":true}},{{\"hook_missing_in_prologue\":true}}]")))],
             "C05" => vec![("unconfigured_hook_referenced", j(&format!("[{ok_run},{{\"unconfigured_hook_referenced\":true}}]"))),
-                          ("hook_missing_in_prologue", j(&format!("[{ok_run},{{\"status_is\":\"modified\"}},{{\"prologue_expected\":true}},{{\"hook_missing_in_prologue\":true}}]")))],
+                          ("hook_missing_in_prologue", j(&format!("[{ok_run},{{\"status_is\":\"modified\"}},{{\"prologue_expected\":true}},{{\"hook_missing_in_prologue\":true}}]"))),
+                          ("configured_hook_missing_in_prologue", j(&format!("[{ok_run},{{\"status_is\":\"modified\"}},{{\"prologue_expected\":true}},{{\"configured_hook_missing_in_prologue\":true}}]")))],
             "C09" => vec![("map_points_outside_input", j(&format!("[{ok_run},{{\"status_is\":\"modified\"}},{{\"map_points_outside_input\":true}}]"))),
                           // (the "hook call inside its statement" oracle approximates statement extents by neighbouring generated
                           //  lines: good enough for the hand-checked programs that name it, too coarse for arbitrary layouts)
